@@ -34,7 +34,7 @@ func checkPoolKey(c *engine.Ctx, rule string) {
 			if !strings.HasSuffix(ps, "URL.Host") {
 				return
 			}
-			src := engine.Provenance(st.Val, engine.ProvOpts{})
+			src := engine.Provenance(st.Val, engine.ProvOpts{IntoCallee: true, Prog: c.P}) // the key may be built by a helper
 			if !src.HasField(dom) && !src.HasField(loc) && !src.HasField(usr) {
 				return // the no-route branch (req.URL.Host = req.Host)
 			}
